@@ -367,6 +367,10 @@ class _FunctionPass:
         its .shape/.T/.dtype is read, or it is annotated ndarray."""
         if not hasattr(self, "_arr_ev"):
             ev = set()
+            parents = {}
+            for n in _walk_local(self.node):
+                for c in ast.iter_child_nodes(n):
+                    parents[id(c)] = n
             for n in _walk_local(self.node):
                 if isinstance(n, ast.Subscript) and isinstance(n.value,
                                                                ast.Name):
@@ -386,6 +390,21 @@ class _FunctionPass:
                         for o in ops:
                             if isinstance(o, ast.Name):
                                 ev.add(o.id)
+                    # results of numpy array constructors / converters
+                    if isinstance(f, ast.Attribute) and isinstance(
+                            f.value, ast.Name) and f.value.id in (
+                            "np", "numpy") and f.attr in (
+                            "asarray", "array", "ascontiguousarray",
+                            "asanyarray", "zeros", "ones", "empty",
+                            "zeros_like", "ones_like", "empty_like",
+                            "arange", "hstack", "vstack", "concatenate",
+                            "copy", "cumsum", "sort", "unique"):
+                        par = parents.get(id(n))
+                        if isinstance(par, ast.Assign) and \
+                                par.value is n:
+                            for t in par.targets:
+                                if isinstance(t, ast.Name):
+                                    ev.add(t.id)
             a = self.node.args
             for x in a.posonlyargs + a.args + a.kwonlyargs:
                 if x.annotation is not None and "ndarray" in src(
